@@ -51,7 +51,7 @@ LineOf(a, e, b) ==
     ptr |-> a.cur, tr |-> b.trk, ptrcs |-> CsOf(a, a.cur), trcs |-> b.trks,
     pleak |-> LeakOf(a), leak |-> LeakOf(b), pend |-> PendOf(b),
     out |-> [k \in 1..Len(b.out) |-> b.out[k] @@ [wdn |-> 0, nln |-> 1, ats |-> <<1, 2, 3>>, lp |-> -1, aspl |-> -1, rr |-> <<-1, -1, -1>>]], rep |-> b.rep, closes |-> b.cl, att |-> b.att, exc |-> 0, hang |-> FALSE,
-    sS |-> <<>>, sR |-> <<>>, wS |-> <<>>, wR |-> <<>>, fz |-> "", flen |-> 0, probeok |-> TRUE, rptsame |-> TRUE, aspathok |-> TRUE, acc |-> 0, esub |-> 0,
+    sS |-> <<>>, sR |-> <<>>, wS |-> <<>>, wR |-> <<>>, fz |-> "", flen |-> 0, probeok |-> TRUE, rptsame |-> TRUE, aspathok |-> TRUE, binsame |-> TRUE, acc |-> 0, esub |-> 0,
     rq |-> RqOf(e), statsame |-> (b.out = <<>>), rest |-> RestOf(e, a)]
 \* in the model "manual stop in force" is exactly allow_automatic_start = FALSE
 MonOf(a) == [Mon0 EXCEPT !.stopped = IF a.allow THEN "no" ELSE "yes", !.restarted = a.allow]      \* (coop0 = -1: the cooperative clauses are checked by Coop.tla)
